@@ -215,6 +215,25 @@ def tlc_check(ctx, module, cfg, workers=None, timeout=1800, must_cover=(), cover
     return distinct, generated
 
 
+def tlaps_prove(ctx, relpath, timeout=900):
+    """Machine-checks a TLAPS proof module (unbounded design-level lemma). A failing proof is a broken
+    specification (infrastructure error), never a violation of the code."""
+    d = tempfile.mkdtemp(prefix="tlaps-", dir=ctx.work)
+    src = os.path.join(SPECS, relpath)
+    shutil.copy(src, d)
+    t = time.time()
+    p = subprocess.run(["timeout", str(timeout), "tlapm", "--threads", str(max(2, NCPU // 2)), os.path.basename(src)], cwd=d, capture_output=True, text=True)
+    out = p.stdout + p.stderr
+    m = re.search(r"All (\d+) obligations? proved", out)
+    shutil.rmtree(d, ignore_errors=True)
+    if p.returncode != 0 or not m:
+        raise Infra("TLAPS could not discharge %s:\n%s" % (relpath, "\n".join(out.splitlines()[-25:])))
+    n = int(m.group(1))
+    ctx.tlc_runs.append({"loop": "proof", "module": relpath, "obligations": n, "discharged": n, "wall_s": round(time.time() - t, 1)})
+    log("[proof] %s: all %d obligations proved by tlapm, %.1fs" % (relpath, n, time.time() - t))
+    return n
+
+
 _TAGGED = re.compile(r'^<<"([A-Z]+)", "(.*)">>$')
 
 
